@@ -17,6 +17,9 @@
         compress/zlib inflates as z; same = the bytes that a reader must take for the payload
         (the raw rest, or the inflation) are the written payload.
    {"ev":"read","len","sum"}             the real reader delivered a payload
+   "rep": n on a write / read line (long-running connections): n consecutive writes of the same
+        payload that put byte-identical frames on the wire / n consecutive identical deliveries
+        are logged once.  Absent = 1.
    {"ev":"end","err"}                    the reader hit the end of the stream ("eof") or failed ("error")
 
    Required: every frame is one a conforming reader accepts as exactly the written payload
@@ -30,7 +33,18 @@ CONSTANT Diagnose   \* FALSE: a forbidden line rejects the trace.  TRUE: it is p
                     \* the rest of that connection is skipped and the trace goes on with the next reset,
                     \* so that one pass lists every offending connection.
 
-VARIABLE st   \* [dir, thr, pending, broken, skip]
+VARIABLE st   \* [dir, thr, pending, broken, skip]; pending = run-length queue of <<len, sum, count>>
+
+Rep(rec) == IF "rep" \in DOMAIN rec THEN rec.rep ELSE 1
+
+\* take r deliveries of (len, sum) from the front of the run-length queue q
+RECURSIVE Consume(_, _, _, _)
+Consume(q, len, sum, r) ==
+    IF r = 0 THEN [ok |-> TRUE, q |-> q]
+    ELSE IF q = <<>> \/ Head(q)[1] # len \/ Head(q)[2] # sum THEN [ok |-> FALSE, q |-> q]
+    ELSE LET h == Head(q) IN
+         IF h[3] > r THEN [ok |-> TRUE, q |-> <<<<h[1], h[2], h[3] - r>>>> \o Tail(q)]
+         ELSE Consume(Tail(q), len, sum, r - h[3])
 
 Fresh(dir, thr) == [dir |-> dir, thr |-> thr, pending |-> <<>>, broken |-> FALSE, skip |-> FALSE]
 
@@ -75,13 +89,12 @@ TWrite ==
          THEN IF Rec.outer > MaxFrame
                 THEN st' = [st EXCEPT !.broken = TRUE]                 \* cannot be framed: see above
                 ELSE st' = [st EXCEPT !.pending = IF Rec.len = 0 \/ st.broken THEN @
-                                                 ELSE Append(@, <<Rec.len, Rec.sum>>)]
+                                                 ELSE Append(@, <<Rec.len, Rec.sum, Rep(Rec)>>)]
          ELSE Bad
 
 TRead == /\ IsEv("read") /\ ~st.skip
-         /\ IF st.pending # <<>> /\ Head(st.pending) = <<Rec.len, Rec.sum>>
-              THEN st' = [st EXCEPT !.pending = Tail(@)]
-              ELSE Bad
+         /\ LET c == Consume(st.pending, Rec.len, Rec.sum, Rep(Rec)) IN
+              IF c.ok THEN st' = [st EXCEPT !.pending = c.q] ELSE Bad
 
 \* a payload delivered earlier still has the content it was delivered with once the whole
 \* stream has been read (the harness keeps the delivered slices without copying them)
